@@ -25,6 +25,9 @@ TEMPLATES = [
     # writes through a reference to sys.stdout taken by the *first* such statement of the program
     ('useout',    ["import sys; emit = globals().get('emit'); emit = emit if callable(emit) else sys.stdout.write; "
                    "x{k} = emit('u{k}\\n'); T({k})"]),                  # output whose every line starts with blanks
+    # statements carrying inline directives that do not change what runs (two in a row / one alone)
+    ('inlinedir', ['T({k})  # xdoctest: +ELLIPSIS']),
+    ('inlinedir2', ['T({k})  # xdoctest: +ELLIPSIS', 'T({k}.5)  # xdoctest: -NORMALIZE_REPR', 'T({k}.7)']),
     ('aug',       ['w = 0', 'w += T({k}, 1)']),
     ('import',    ['import os as o{k}; T({k})']),
     ('tcomment',  ['T({k})  # trailing comment']),
